@@ -373,7 +373,7 @@ Section Reify.
           end
         | TMap e =>
           match to_cfg val with
-          | CV d a => m <- reify_map f o e GMapNil (VSub d a) [] ;; Ok (pointerize t m)
+          | CV d a => m <- reify_map f o e GMapNil (VSub d a) vts ;; Ok (pointerize t m)    (* the field's validators apply to the fresh map *)
           | CVNot => Err EExpectedObject ""
           | CVDyn => OutOfModel
           end
